@@ -9,4 +9,9 @@ def build(run):
     lifecycle.verify_run_tasks(run)
     lifecycle.verify_stop_sblocks(run)
     lifecycle.verify_run_forever(run)
+    lifecycle.verify_api(run, helper_task=True)
+    run.replayer('Circuit.wait_init/raises:not_running_or_failed/post0', lambda run_, ob, model: open('/verif/specs/replay_c08c.py').read())
+    lifecycle.verify_shutdown(run)
+    lifecycle.lifecycle_scans(run)
+    lifecycle.verify_no_modification(run)
     run.replayer('Circuit._run_tasks/raises:cancelled_while_waiting/post2', lambda run_, ob, model: open('/verif/specs/replay_c08a.py').read())
